@@ -21,7 +21,7 @@ def make(rng, dmax=5, boundary=False):
     rows, cols, ranks = gen.rand_shape(rng, dmax=dmax, mmax=3, rmax=5, size_cap=8192)
     d = len(rows)
     cplx = bool(rng.integers(0, 2))
-    k = int(rng.integers(0, 4))
+    k = int(rng.integers(0, 6))
     if boundary:
         ranks = [int(rng.integers(1, 4))] + ranks[1:-1] + [int(rng.integers(1, 4))]
     if k == 0:
@@ -34,9 +34,28 @@ def make(rng, dmax=5, boundary=False):
     elif k == 2:
         cores = gen.rand_cores(rng, rows, cols, gen.feasible_ranks(rows, cols, [1] + [4] * (d - 1) + [1]) if not boundary else ranks, cplx)
         kind = 'feasible'
-    else:
+    elif k == 3:
         cores = gen.rand_cores(rng, rows, cols, ranks, cplx)
         kind = 'generic'
+    elif k == 4:  # structured: exactly-zero cores / zero tensor / unit vectors
+        cores = gen.rand_cores(rng, rows, cols, ranks, cplx)
+        z = int(rng.integers(0, 3))
+        if z == 0:
+            cores = [np.zeros_like(c) for c in cores]
+            kind = 'zero_tensor'
+        elif z == 1:
+            j = int(rng.integers(0, d))
+            cores[j] = np.zeros_like(cores[j])
+            kind = 'one_zero_core'
+        else:
+            for c in cores:
+                c[...] = 0
+                c[tuple(int(rng.integers(0, n)) for n in c.shape)] = 1
+            kind = 'unit_entries'
+    else:
+        cores = gen.rand_cores(rng, rows, cols, ranks, cplx)
+        gen.apply_scale(cores, rng, float(10 ** rng.uniform(-10, 10)))
+        kind = 'scaled'
     return tt.TT(cores), kind
 
 
